@@ -569,9 +569,16 @@ def r8(fx):
     from .models import trace_encode, SAModel
     enc = fx.fn('encoder', '_encode')
     mv = micro_versions(fx)
+    try:
+        ref_iface = src.all_params(enc) == ['segments', 'error', 'version', 'mask', 'eci', 'boost_error', 'sa_info']
+    except Unknown:
+        ref_iface = False
     for v, level, sa in ((5, 'M', SAModel((3, 1, 2, 0x5A))), (-2, 'L', None), (40, 'H', None)):
         rv = mv[v] if v < 1 else v
-        rec, res, info = trace_encode(fx, rv, level, level, sa_info=sa, nsegs=3)
+        nsegs = 3
+        if sa is not None and not ref_iface:
+            nsegs = 1       # _encode was reorganised: the public sequence entry point builds one segment per symbol
+        rec, res, info = trace_encode(fx, rv, level, level, sa_info=sa, nsegs=nsegs)
         names = [r[0] for r in rec]
         buf = info['buffers'][0] if len(info['buffers']) == 1 else None
         probs = []
@@ -594,7 +601,7 @@ def r8(fx):
             if any(tuple(w[1][2:4]) != (ver_t, vr) or (list(w[1][4:]) + [w[2].get('eci', False)])[0] is not False for w in ws):
                 probs.append(f'write_segment(ver, ver_range, eci) = {[tuple(w[1][2:]) for w in ws][:1]}, expected ({ver_t}, {vr}, False)')
             order = [n for n in names if n in ('write_segment', 'write_terminator', 'make_final_message')]
-            if order != ['write_segment'] * 3 + ['write_terminator', 'make_final_message']:
+            if order != ['write_segment'] * nsegs + ['write_terminator', 'make_final_message']:
                 probs.append(f'order {order}')
             fin = [r for r in rec if r[0] == 'make_final_message']
             if not fin or fin[0][1][2] is not buf:
